@@ -152,3 +152,44 @@ def undo_renames(repo) -> List[str]:
         _Renamer(back).visit(fi.node)
         touched.append(q)
     return touched
+
+
+def fold_new_condition_temps(repo) -> List[str]:
+    """`t = <cond>; if t: ...` with a local `t` that the reference tree does not have and that is used
+    nowhere else is folded back into `if <cond>: ...` (a hoisted condition is the same program)."""
+    ref = reference()
+    touched = []
+    for q, fi in repo.funcs.items():
+        if fi.parent is not None:
+            continue
+        known = set(ref.get(q, {}).get("locals", []))
+        fn = fi.node
+        counts: Dict[str, int] = {}
+        for n in ast.walk(fn):
+            if isinstance(n, ast.Name):
+                counts[n.id] = counts.get(n.id, 0) + 1
+        changed = False
+        for node in ast.walk(fn):
+            for field in ("body", "orelse", "finalbody"):
+                b = getattr(node, field, None)
+                if not (isinstance(b, list) and len(b) >= 2):
+                    continue
+                out = []
+                i = 0
+                while i < len(b):
+                    a = b[i]
+                    nxt = b[i + 1] if i + 1 < len(b) else None
+                    if (isinstance(a, ast.Assign) and len(a.targets) == 1 and isinstance(a.targets[0], ast.Name) and isinstance(nxt, ast.If)
+                            and isinstance(nxt.test, ast.Name) and nxt.test.id == a.targets[0].id and counts.get(a.targets[0].id) == 2
+                            and a.targets[0].id not in known):
+                        nxt.test = a.value
+                        changed = True
+                        i += 1
+                        continue
+                    out.append(a)
+                    i += 1
+                if len(out) != len(b):
+                    setattr(node, field, out)
+        if changed:
+            touched.append(q)
+    return touched
